@@ -444,7 +444,7 @@ class Interp(CallMixin):
         if isinstance(st, ast.Continue):
             raise _Continue()
         if isinstance(st, (ast.FunctionDef, ast.AsyncFunctionDef)):
-            sub = frame.fn.nested.get(st.name) if frame.fn is not None else None
+            sub = (frame.fn.nested_nodes.get(id(st)) or frame.fn.nested.get(st.name)) if frame.fn is not None else None
             if sub is None:
                 self.unsupported(st, frame, "nested function not indexed")
             frame.vars[st.name] = FuncVal(fn=sub, env=frame, module=frame.module)
